@@ -273,6 +273,56 @@ let string_of_doc (d : doc) : string =
       | TStart b -> Printf.sprintf " (s %s)" (block_name b)
       | TEnd b -> Printf.sprintf " (e %s)" (block_name b)) d) ^ ")"
 
+(* ------------------------------------------------------------------ conventional levels (C01) *)
+let arity_of = function
+  | A "required" -> ARequired | A "optional" -> AOptional | A "many" -> AMany | A "some" -> ASome | A "last" -> ALast
+  | L [A "fallback"; v] -> AFallback (val_of_sexp v)
+  | _ -> failwith "bad arity"
+let citem_of = function
+  | L [A "switch"; nm] -> CSwitch (named_of_sexp nm)
+  | L [A "flag"; nm; p; a] -> CFlag (named_of_sexp nm, val_of_sexp p, val_of_sexp a)
+  | L [A "reqflag"; nm; p] -> CReqFlag (named_of_sexp nm, val_of_sexp p)
+  | L [A "count"; nm] -> CCount (named_of_sexp nm)
+  | L [A "reqmany"; nm; p] -> CReqMany (named_of_sexp nm, val_of_sexp p)
+  | L [A "arg"; nm; mv; ty; ar] -> CArg (named_of_sexp nm, hx mv, ty_of ty, arity_of ar)
+  | _ -> failwith "bad level item"
+let parity_of = function
+  | A "req" -> QReq | A "opt" -> QOpt | A "many" -> QMany | A "some" -> QSome | _ -> failwith "bad parity"
+let rec level_of_sexp = function
+  | L [A "level"; L (A "items" :: its); tail] ->
+    let t = match tail with
+      | L [A "none"] -> TNone
+      | L (A "pos" :: ps) ->
+        TPos (List.map (function L [A "p"; mv; ty; par] -> { cp_mv = hx mv; cp_ty = ty_of ty; cp_par = parity_of par }
+                                 | _ -> failwith "bad positional") ps)
+      | L (A "cmds" :: cs) ->
+        TCmds (List.fold_right (fun c acc -> match c with
+            | L [A "c"; name; L (A "aliases" :: al); sub] -> CCons (hx name, List.map hx al, level_of_sexp sub, acc)
+            | _ -> failwith "bad command") cs CNil)
+      | _ -> failwith "bad tail" in
+    Level (List.map citem_of its, t)
+  | _ -> failwith "bad level"
+
+let string_of_outcome (o : outcome) : string =
+  match o with
+  | OutOk v -> "OK " ^ string_of_val v
+  | OutStdout (HHelp _) -> "HELP"
+  | OutStdout (HVersion _) -> "VERSION"
+  | OutCompletion _ -> "COMP"
+  | OutStderr m -> let (k, _) = msg_kind_text m in "STDERR " ^ k
+  | OutPanic w -> "PANIC " ^ string_of_int (int_of_n w)
+  | OutFuel -> "FUEL"
+
+(* (conv ID LEVEL (argv HEX ..)): the declarative verdict and the operational outcome of the compiled parser *)
+let run_conv (id : string) (lv : sexp) (fields : sexp list) =
+  let l = level_of_sexp lv in
+  let argv = match List.fold_left (fun acc f -> match f with L (A "argv" :: r) -> Some r | _ -> acc) None fields with
+    | Some r -> List.map hx r | None -> [] in
+  let v = match denote l argv with
+    | Accept v -> "ACCEPT " ^ string_of_val v | Reject -> "REJECT" | Unspecified -> "UNSPEC" in
+  let feat = { f_autocomplete = true; f_docgen = true; f_color = false } in
+  Printf.printf "%s\tCONV\t%s\t%s\n" id v (string_of_outcome (run_inner feat (fun _ -> None) (compile_options l) None argv))
+
 (* ------------------------------------------------------------------ cases *)
 let find_field (name : string) (fields : sexp list) : sexp list option =
   List.fold_left (fun acc f -> match f with L (A n :: rest) when n = name -> Some rest | _ -> acc) None fields
@@ -379,6 +429,10 @@ let run_case (line : string) =
     (match program_name (Some (hx h)) with
      | Some n -> Printf.printf "%s\tNAME\t%s\n" id (hex_of_bytes n)
      | None -> Printf.printf "%s\tNAME\t-\n" id)
+  | L (A "conv" :: A id :: lv :: fields) ->
+    (try run_conv id lv fields
+     with Failure m -> Printf.printf "%s\tBADCASE\t%s\n" id m
+        | Stack_overflow -> Printf.printf "%s\tBADCASE\tstack_overflow\n" id)
   | L (A "rdoc" :: A id :: fields) ->
     (try run_rdoc id fields
      with Failure m -> Printf.printf "%s\tBADCASE\t%s\n" id m
